@@ -116,9 +116,11 @@ def run(c):
         bcases.append(core.Case(cid, "b64.encode", [data]))
         bmeta[cid] = data
     c.need("encoder output checked for an input above 64 KiB")
-    for lane in lanes:
-        obs = core.run_cases(bcases, lane=lane, per_case_timeout=120)
-        for cs in bcases:
+    for lane in lanes + ["one-cpu"]:
+        # third pass: the same inputs in processes that see a single CPU (container quota, taskset)
+        largest = sorted(bcases, key=lambda x: len(bmeta[x.id]))[-10:]
+        obs = core.run_cases(largest if lane == "one-cpu" else bcases, lane="rel" if lane == "one-cpu" else lane, per_case_timeout=120, env={"VF_ONE_CPU": "1"} if lane == "one-cpu" else None)
+        for cs in (largest if lane == "one-cpu" else bcases):
             o = obs.get(cs.id)
             data = bmeta[cs.id]
             c.ev()
